@@ -9,6 +9,7 @@ import (
 	"fmt"
 	"io"
 	"net"
+	"strings"
 	"time"
 
 	"github.com/Jigsaw-Code/outline-sdk/transport"
@@ -24,53 +25,54 @@ const T = 59 * time.Second
 
 // ConnSpec is one scripted client connection.
 type ConnSpec struct {
-	Class  string `json:"class"`  // ok | cipher | replay-client | replay-server | bad-addr | private | refused | relay-client | relay-target | raw
-	Cipher int    `json:"cipher"`
-	Up     int    `json:"up"`
-	Down   int    `json:"down"`
-	Var    int    `json:"var"`    // class-specific variant
-	Raw    []byte `json:"raw,omitempty"` // class raw: authenticated plaintext chunks are built by the caller (see RawChunks)
+	Class     string           `json:"class"` // ok | cipher | replay-client | replay-server | bad-addr | private | refused | relay-client | relay-target | raw
+	Cipher    int              `json:"cipher"`
+	Up        int              `json:"up"`
+	Down      int              `json:"down"`
+	Var       int              `json:"var"`           // class-specific variant
+	Raw       []byte           `json:"raw,omitempty"` // class raw: authenticated plaintext chunks are built by the caller (see RawChunks)
 	RawChunks []world.RawChunk `json:"-"`
 }
 
 type Spec struct {
-	Conns      []ConnSpec `json:"conns"`
-	Concurrent bool       `json:"concurrent"` // run the clients as parallel threads
-	Cache      int        `json:"cache"`
-	AcceptErr  bool       `json:"accept_err"` // inject one transient accept error before the first connection
-	StopEarly  bool       `json:"stop_early"` // close the listener while connections are in flight
-	RealMetrics bool      `json:"real_metrics"`
-	TCPBuf     int        `json:"tcpbuf,omitempty"` // socket buffer size (small: writes block and can fail part-way)
-	Shared     bool       `json:"shared_listener,omitempty"` // the listener comes from a ListenerManager
+	Conns       []ConnSpec `json:"conns"`
+	Concurrent  bool       `json:"concurrent"` // run the clients as parallel threads
+	Cache       int        `json:"cache"`
+	AcceptErr   bool       `json:"accept_err"` // inject one transient accept error before the first connection
+	StopEarly   bool       `json:"stop_early"` // close the listener while connections are in flight
+	RealMetrics bool       `json:"real_metrics"`
+	TCPBuf      int        `json:"tcpbuf,omitempty"`          // socket buffer size (small: writes block and can fail part-way)
+	Shared      bool       `json:"shared_listener,omitempty"` // the listener comes from a ListenerManager
+	FailFirst   bool       `json:"fail_first,omitempty"`      // the handling of client 0's connection fails (panics, recovered by StreamServe)
 }
 
 func (s Spec) String() string { b, _ := json.Marshal(s); return string(b) }
 
 // ConnObs is what was observed for one client connection.
 type ConnObs struct {
-	Spec        ConnSpec
-	Want        string // expected status
-	WantAuth    bool
-	Rec         *world.ConnRec
-	Sent        int64 // wire bytes the client wrote
-	ClientGot   []byte
-	Plain       []byte // decrypted
-	TargetGot   []byte
+	Spec                ConnSpec
+	Want                string // expected status
+	WantAuth            bool
+	Rec                 *world.ConnRec
+	Sent                int64 // wire bytes the client wrote
+	ClientGot           []byte
+	Plain               []byte // decrypted
+	TargetGot           []byte
 	SrvRead, SrvWritten int64 // wire bytes on the client-facing server socket
 	TgtWritten, TgtRead int64 // wire bytes on the proxy->target socket (from the proxy's point of view)
-	Dialed      bool
-	Key         *world.Key
-	Completed   bool
-	Refused     bool // the dial itself was refused (listener already closed)
+	Dialed              bool
+	Key                 *world.Key
+	Completed           bool
+	Refused             bool // the dial itself was refused (listener already closed)
 }
 
 type Obs struct {
-	Conns   []*ConnObs
-	Open    []string
-	ServeOK bool
-	Recovered []string
+	Conns      []*ConnObs
+	Open       []string
+	ServeOK    bool
+	Recovered  []string
 	AcceptWarn bool
-	Metrics service.ServiceMetrics
+	Metrics    service.ServiceMetrics
 }
 
 var privateDsts = []string{"10.1.2.3:80", "127.0.0.1:22", "[::1]:80", "192.168.0.1:443", "100.64.0.1:53", "[fd00::1]:80", "0.0.0.0:80", "169.254.1.1:80"}
@@ -96,6 +98,9 @@ func Build(s Spec, o *Obs, newMetrics func() service.ServiceMetrics) func() {
 			w.WrapMetrics = func(conn transport.StreamConn, rec *world.ConnRec) service.TCPConnMetrics {
 				return &tee{rec, o.Metrics.AddOpenTCPConnection(conn)}
 			}
+		}
+		if s.FailFirst {
+			w.FailHandler = func(remote string) bool { return strings.HasPrefix(remote, "203.0.113.10:") }
 		}
 		if s.Shared {
 			w.StartShared()
@@ -388,4 +393,7 @@ func (t *tee) AddClosed(status string, data metricsPM, d time.Duration) {
 	t.a.AddClosed(status, data, d)
 	t.b.AddClosed(status, data, d)
 }
-func (t *tee) AddProbe(status, drain string, n int64) { t.a.AddProbe(status, drain, n); t.b.AddProbe(status, drain, n) }
+func (t *tee) AddProbe(status, drain string, n int64) {
+	t.a.AddProbe(status, drain, n)
+	t.b.AddProbe(status, drain, n)
+}
